@@ -38,6 +38,18 @@ theorem receivedMaxStreamData_over_limit {s : State} {id n : Nat} (hr : sidIniti
     exact ⟨hr, hi⟩
   simp only [h1, h2, Bool.false_eq_true, ↓reduceIte]
 
+/-- a RESET_STREAM repeating the final size of a stream that is already reset changes nothing and is
+    not an error, whatever the flow-control state is -/
+theorem receivedReset_duplicate {s : State} {id code fo c : Nat} {rs : Recv}
+    (hv : s.validateReceiveId id = none) (hf : s.recv.find? id = some (some rs))
+    (hst : rs.state = .resetRecvd fo c) : s.receivedReset id code fo = some (s, .ok false) := by
+  have hg : s.getOrInsertRecv id = some (rs, s) := by simp [State.getOrInsertRecv, hf]
+  have hr : rs.reset code fo s.dataRecvd s.localMaxData = some (.ok (false, rs)) := by
+    unfold Recv.reset Recv.resetSizeErr Recv.resetTail
+    simp [Recv.finalOffset, Recv.isReceiving, hst, Gen.resetDuplicateBeforeCredit]
+  unfold State.receivedReset
+  simp only [hv, hg, hr]
+
 /-- on an existing, still receiving half `received` reports exactly `ingest`'s verdict -/
 theorem received_follows_ingest {s s' : State} {id off len : Nat} {fin : Bool} {rs : Recv} {e : TErr}
     (hv : s.validateReceiveId id = none) (hf : s.recv.find? id = some (some rs)) (hrcv : rs.isReceiving = true) :
